@@ -19,6 +19,7 @@ RULE = (
     "subsets (2-15) and orders of headers, same oracle; including files that make cpp print warnings while it succeeds; 6 (quick) / 60 "
     "(thorough) rounds of 8 parse_file calls overlapping in time from 8 threads, each compared with the same call made alone. Non-trivial: single-header runs defining >= 1 typedef (distinct by "
     "construction); subsets with >= 3 headers from >= 2 directories (distinct by hash)."
+    " List forms: ['-std=..', '-nostdinc', '-I<dir>'], the same with '-I' and '<dir>' as separate elements, and a mixed list (split -I with a trailing separator, -D/-U pair, a non-existent extra -I directory). "
 )
 ASSUMPTIONS = ["the system 'cpp' (gcc 12) is the preprocessor; -nostdinc is passed in list form so that only the fake headers are seen"]
 
@@ -41,7 +42,7 @@ NOISY_TAIL = "#warning the user's own warning\n"
 
 
 def check_includes(hdrs, std, form, workdir, case, deep=True, noisy=False):
-    """form: 'list' | 'str'.  noisy: the including file makes cpp print
+    """form: 'list' | 'split' | 'mixed' | 'str'.  noisy: the including file makes cpp print
     warnings (macros the fake headers define again, a #warning directive) while
     it still succeeds - diagnostics are not part of the preprocessed text."""
     r = root()
@@ -51,6 +52,11 @@ def check_includes(hdrs, std, form, workdir, case, deep=True, noisy=False):
     label = "%s std=%s form=%s" % (",".join(hdrs), std, form)
     if form == "list":
         args = ["-std=" + std, "-nostdinc", "-I" + r]
+    elif form == "split":
+        # the option and its operand as two list elements, as cpp accepts them
+        args = ["-std=" + std, "-nostdinc", "-I", r]
+    elif form == "mixed":
+        args = ["-I", r + os.sep, "-DPYCP_X=1", "-std=" + std, "-nostdinc", "-I" + os.path.join(workdir, "no-such-dir"), "-U", "PYCP_X"]
     else:
         link = os.path.join(workdir, "inc dir=x")
         if not os.path.exists(link):
@@ -118,7 +124,8 @@ def header_shard(arg):
     per_config = {}
     d = tempfile.mkdtemp(prefix="c19_")
     try:
-        for std, form in [("c99", "list"), ("c11", "list"), ("gnu99", "list"), ("gnu11", "list"), ("default", "str")]:
+        k = sum(map(ord, h))
+        for std, form in [("c99", "list"), ("c11", "list"), ("gnu99", "list"), ("gnu11", "list"), ("default", "str"), (["c99", "c11", "gnu99", "gnu11"][k % 4], ["split", "mixed"][(k // 4) % 2])]:
             st.evaluations += 1
             # quick tier: the by-hand comparison and the typedef-use check run
             # for -std=c11 and for the string form; the other dialects only
@@ -167,10 +174,10 @@ def subset_shard(arg):
         for _ in range(k):
             chosen.append(pool.pop(c.below(len(pool))))
         std = c.choice(["c99", "c11", "gnu99", "gnu11"])
-        form = "list" if c.chance(0.8) else "str"
+        form = c.weighted([(5, "list"), (2, "split"), (1, "mixed"), (2, "str")])
         st.evaluations += 1
         noisy = c.chance(0.3)
-        check_includes(chosen, std if form == "list" else "default", form, d, ("includes", chosen, std, form, noisy), noisy=noisy)
+        check_includes(chosen, std if form != "str" else "default", form, d, ("includes", chosen, std, form, noisy), noisy=noisy)
         if len(chosen) >= 3 and len({os.path.dirname(h) for h in chosen}) >= 2:
             st.nt(tuple(chosen))
         if st.evaluations % 13 == 1:
@@ -247,7 +254,7 @@ def run(ctx):
     ctx.map(subset_shard, [(s, ctx.pick(6, 200)) for s in ctx.shard_seeds(16)])
     ctx.map(concurrent_shard, [(ctx.seed * 11 + r, 8) for r in range(ctx.pick(6, 60))])
     ctx.exhaustive = True
-    ctx.extra["exhaustive_bounds"] = "%d header files x {c99, c11, gnu99, gnu11} (list form) + string form" % len(hs)
+    ctx.extra["exhaustive_bounds"] = "%d header files x {c99, c11, gnu99, gnu11} (list form) + string form + one of the split/mixed list forms" % len(hs)
     ctx.extra["headers"] = len(hs)
 
 
